@@ -555,19 +555,45 @@ pub async fn run_op(mut h: ContextHandle, spec: OpSpec) -> OpOut {
 /// The future borrows the handle and the option strings, which live in boxes owned by this struct
 /// and declared after it (dropped after it).
 pub struct EagerOp {
-    inner: std::pin::Pin<Box<dyn std::future::Future<Output = OpOut>>>,
-    _handle: Box<ContextHandle>,
+    inner: Option<std::pin::Pin<Box<dyn std::future::Future<Output = OpOut>>>>,
+    _handle: Option<Box<ContextHandle>>,
     _spec: Box<OpSpec>,
+    /// set while this operation has exclusive use of a long-lived handle owned by the world
+    busy: Option<std::rc::Rc<std::cell::Cell<bool>>>,
+}
+
+impl Drop for EagerOp {
+    fn drop(&mut self) {
+        self.inner = None; // ends the borrow of the handle first
+        if let Some(b) = &self.busy {
+            b.set(false);
+        }
+    }
 }
 
 impl EagerOp {
     pub fn new(h: ContextHandle, spec: OpSpec) -> Self {
         let mut handle = Box::new(h);
-        let spec = Box::new(spec);
         let hp: *mut ContextHandle = &mut *handle;
+        let mut op = unsafe { Self::on(hp, spec, None) };
+        op._handle = Some(handle);
+        op
+    }
+
+    /// The operation uses the handle behind `hp` (owned by the world, boxed, kept alive and
+    /// untouched while `busy` is set) - the way a caller uses ONE handle for one operation after
+    /// the other, so that whatever the handle remembers between calls is really there.
+    ///
+    /// # Safety
+    /// `hp` must stay valid and unaliased until the returned value is dropped.
+    pub unsafe fn on(hp: *mut ContextHandle, spec: OpSpec, busy: Option<std::rc::Rc<std::cell::Cell<bool>>>) -> Self {
+        if let Some(b) = &busy {
+            b.set(true);
+        }
+        let spec = Box::new(spec);
         let sp: *const OpSpec = &*spec;
-        // SAFETY: both boxes outlive `inner` (field order) and are never touched again
-        let inner: std::pin::Pin<Box<dyn std::future::Future<Output = OpOut>>> = unsafe {
+        // SAFETY: the handle and the spec outlive `inner` (dropped first in Drop) and are not touched
+        let inner: std::pin::Pin<Box<dyn std::future::Future<Output = OpOut>>> = {
             let h: &'static mut ContextHandle = &mut *hp;
             match &*sp {
                 OpSpec::Publish(p) => {
@@ -592,14 +618,14 @@ impl EagerOp {
                 }
             }
         };
-        Self { inner, _handle: handle, _spec: spec }
+        Self { inner: Some(inner), _handle: None, _spec: spec, busy }
     }
 }
 
 impl std::future::Future for EagerOp {
     type Output = OpOut;
     fn poll(self: std::pin::Pin<&mut Self>, cx: &mut std::task::Context<'_>) -> std::task::Poll<OpOut> {
-        self.get_mut().inner.as_mut().poll(cx)
+        self.get_mut().inner.as_mut().expect("polled after drop").as_mut().poll(cx)
     }
 }
 
